@@ -82,17 +82,59 @@ def check_accumulator_allocation(P, R, rule="DTYPE.accumulator"):
 
 
 def check_reduce_cover(P, R):
-    """reduce_indices_means_vars collects component i of every block's statistics."""
+    """reduce_indices_means_vars uses component i of every block's statistics.
+    Whole-list idioms: `[s[i] for s in stats]`, `for a, b, c in stats:` / `for s in stats:`; partial idioms (reported):
+    a slice or a single element of the list.  Anything else is left undecided."""
     f = P.func("kmeans:reduce_indices_means_vars")
     prm = f.value_params[0]
+    uses = [n_ for n_ in walk_no_nested(f.node) if isinstance(n_, ast.Name) and n_.id == prm and isinstance(n_.ctx, ast.Load)]
+    whole_loop = set()   # components bound by a for loop over the whole list
+    for n_ in walk_no_nested(f.node):
+        if isinstance(n_, ast.For) and isinstance(n_.iter, ast.Name) and n_.iter.id == prm:
+            if isinstance(n_.target, ast.Tuple):
+                body_names = {x.id for b_ in n_.body for x in ast.walk(b_) if isinstance(x, ast.Name)}
+                for i, e_ in enumerate(n_.target.elts):
+                    if isinstance(e_, ast.Name) and e_.id in body_names:
+                        whole_loop.add(i)
+            elif isinstance(n_.target, ast.Name):
+                for x in (y for b_ in n_.body for y in ast.walk(b_)):
+                    if isinstance(x, ast.Subscript) and isinstance(x.value, ast.Name) and x.value.id == n_.target.id and isinstance(const_value(x.slice), int):
+                        whole_loop.add(const_value(x.slice))
+    partial = [u for u in uses if isinstance(getattr(u, "_parent", None), ast.Subscript) and u._parent.value is u and (isinstance(u._parent.slice, ast.Slice) or (isinstance(const_value(u._parent.slice), int) and not isinstance(getattr(u._parent, "_parent", None), ast.Subscript)))]
+    # stats[0][1] used only for its shape is not a partial use of the data
+    partial = [u for u in partial if not _shape_only(u)]
     for idx, what in ((0, "assignments"), (1, "sums of x"), (2, "sums of x^2")):
-        ok = False
+        ok = idx in whole_loop
         for n_ in walk_no_nested(f.node):
             if isinstance(n_, ast.ListComp) and len(n_.generators) == 1:
                 g = n_.generators[0]
                 if isinstance(g.iter, ast.Name) and g.iter.id == prm and not g.ifs and isinstance(n_.elt, ast.Subscript) and const_value(n_.elt.slice) == idx and isinstance(n_.elt.value, ast.Name) and isinstance(g.target, ast.Name) and n_.elt.value.id == g.target.id:
                     ok = True
-        R.check(ok, "COVER.blocks", f.key, f"component {idx} ({what}) collected from every block", "", f"the per-block {what} (component {idx}) are not collected from every block of `{prm}`")
+        what_ = f"component {idx} ({what}) collected from every block"
+        if ok and not partial:
+            R.ok("COVER.blocks", f.key, what_, "")
+        elif partial or any(isinstance(n_, ast.ListComp) and any(isinstance(g.iter, ast.Subscript) or g.ifs for g in n_.generators) and prm in {x.id for x in ast.walk(n_) if isinstance(x, ast.Name)} for n_ in walk_no_nested(f.node)):
+            R.violation("COVER.blocks", f.key, what_, f"the per-block {what} (component {idx}) are not collected from every block of `{prm}` (a slice, a single element or a filter of the list is used)")
+        elif not ok and not uses:
+            R.violation("COVER.blocks", f.key, what_, f"`{prm}` is not used at all")
+        elif not ok:
+            R.undecided("COVER.blocks", f.key, what_, f"`{prm}` is consumed in a way the rule does not recognise (neither a whole-list comprehension / loop nor a slice)")
+
+
+def _shape_only(u):
+    p = u
+    for _ in range(6):
+        p = getattr(p, "_parent", None)
+        if p is None:
+            return False
+        if isinstance(p, ast.Call) and src(p.func).split(".")[-1] in ("shape", "len", "zeros_like", "ones_like", "empty_like"):
+            return True
+        if isinstance(p, ast.Attribute) and p.attr in ("shape", "ndim", "dtype"):
+            return True
+        if isinstance(p, ast.stmt):
+            return False
+    return False
+
 
 def _rest(P, R):
     g = P.func("gmm:GMMMachine.initialize_gaussians")
